@@ -142,7 +142,18 @@ pub enum NodeEv {
 #[derive(Clone, Debug, Serialize, Deserialize)]
 pub enum Case {
     Unit { kind: Kind, limit: u64, t0: u32, events: Vec<(Dt, Amt, Persist)> },
-    Node { hourly: bool, limit_sat: u32, fee_limit_sat: u32, events: Vec<NodeEv> },
+    Node {
+        hourly: bool,
+        limit_sat: u32,
+        fee_limit_sat: u32,
+        events: Vec<NodeEv>,
+        /// the signer is built by HandlerBuilder (protocol version 6) and invoices / keysends are
+        /// PreapproveInvoice / PreapproveKeysend messages to its root handler (approving approver,
+        /// or declining approver with the payee on the allowlist); restarts rebuild the handler from
+        /// the store with the same start-up configuration
+        #[serde(default)]
+        wire: bool,
+    },
     Approver { hourly: bool, limit: u64, events: Vec<(Dt, Amt, bool, bool)> },
 }
 
@@ -220,6 +231,40 @@ fn propose_invoice(via: u8, node: lightning_signer::prelude::Arc<lightning_signe
         2 => call(move || NegativeApprover().handle_proposed_invoice(&node, inv)),
         _ => call(move || node.add_invoice(inv)),
     }
+}
+
+fn preapprove_reply(r: Out<crate::props::proto::Reply>) -> Out<bool> {
+    use vls_protocol::msgs;
+    match r {
+        Out::Ok(rep) => {
+            if let Some(r) = rep.as_any().downcast_ref::<msgs::PreapproveInvoiceReply>() {
+                Out::Ok(r.result)
+            } else if let Some(r) = rep.as_any().downcast_ref::<msgs::PreapproveKeysendReply>() {
+                Out::Ok(r.result)
+            } else {
+                Out::Err(lightning_signer::util::status::Status::internal("unexpected reply type"))
+            }
+        }
+        Out::Err(e) => Out::Err(e),
+        Out::Panic(p) => Out::Panic(p),
+    }
+}
+
+fn wire_invoice(pw: &mut crate::props::proto::ProtoWorld, inv: &Invoice) -> Out<bool> {
+    use vls_protocol::msgs::{self, Message};
+    let s = match inv {
+        Invoice::Bolt11(b) => b.to_string(),
+        _ => unreachable!(),
+    };
+    preapprove_reply(pw.request(crate::props::proto::To::Root, Message::PreapproveInvoice(msgs::PreapproveInvoice { invstring: vls_protocol::serde_bolt::WireString(s.into_bytes()) })))
+}
+
+fn wire_keysend(pw: &mut crate::props::proto::ProtoWorld, payee: &PublicKey, ph: &PaymentHash, amount_msat: u64) -> Out<bool> {
+    use vls_protocol::msgs::{self, Message};
+    preapprove_reply(pw.request(
+        crate::props::proto::To::Root,
+        Message::PreapproveKeysend(msgs::PreapproveKeysend { destination: vls_protocol::model::PubKey(payee.serialize()), payment_hash: vls_protocol::model::Sha256(ph.0), amount_msat }),
+    ))
 }
 
 fn make_invoice(h: u8, amt_msat: u64, now: Duration) -> Option<Invoice> {
@@ -304,7 +349,8 @@ impl C12 {
         Ok(())
     }
 
-    fn run_node(&self, hourly: bool, limit_sat: u32, fee_limit_sat: u32, events: &[NodeEv], st: &mut CaseStats, ctx: &Ctx) -> Result<(), Violation> {
+    fn run_node(&self, hourly: bool, limit_sat: u32, fee_limit_sat: u32, events: &[NodeEv], wire: bool, st: &mut CaseStats, ctx: &Ctx) -> Result<(), Violation> {
+        use crate::props::proto::{Negotiation, ProtoWorld};
         let itype = if hourly { VelocityControlIntervalType::Hourly } else { VelocityControlIntervalType::Daily };
         let (mut b, mut n) = if hourly { (300u32, 12usize) } else { (3600u32, 24usize) };
         let mut limit = limit_sat as u64 * 1000;
@@ -318,9 +364,18 @@ impl C12 {
         cfg.now_secs = 1_700_000_123;
         // every second limit value: the node is built with the on-chain validator factory wrapped
         // around the simple one (the shape vlsd uses); the configured limits must still apply
-        let onchain_factory = limit_sat % 2 == 1;
+        let onchain_factory = limit_sat % 2 == 1 && !wire;
         let base_policy = cfg.policy.clone();
-        let mut w = if limit_sat % 2 == 1 {
+        let mut pw: Option<ProtoWorld> = if wire {
+            st.class("node_wire_execution");
+            // declining approver for the allowlisted-payee branch, approving approver otherwise
+            Some(ProtoWorld::new_configured(cfg.clone(), 6, Negotiation::SignerCap, vec![], fee_limit_sat % 3 == 2))
+        } else {
+            None
+        };
+        let mut w = if let Some(pw) = pw.as_ref() {
+            World::from_proto(pw)
+        } else if onchain_factory {
             st.class("node_with_onchain_validator_factory");
             let inner = lightning_signer::policy::simple_validator::SimpleValidatorFactory::new_with_policy(cfg.policy.clone());
             let vf: lightning_signer::prelude::Arc<dyn lightning_signer::policy::validator::ValidatorFactory> =
@@ -332,8 +387,8 @@ impl C12 {
         // every third fee limit value: invoices are proposed directly (Node::add_invoice), through
         // Approve::handle_proposed_invoice with an approver that approves, or with one that declines
         // while the payee is on the node's allowlist (the two branches that reach add_invoice)
-        let via = (fee_limit_sat % 3) as u8;
-        st.class(format!("invoices_via:{}", ["add_invoice", "approving-approver", "allowlisted-payee"][via as usize]));
+        let via = if wire { if fee_limit_sat % 3 == 2 { 2u8 } else { 1u8 } } else { (fee_limit_sat % 3) as u8 };
+        st.class(format!("invoices_via:{}{}", if wire { "wire:" } else { "" }, ["add_invoice", "approving-approver", "allowlisted-payee"][via as usize]));
         if via == 2 {
             let payee_key = PublicKey::from_secret_key(&w.secp, &SecretKey::from_slice(&[42; 32]).unwrap());
             w.node.add_allowlist(&[format!("payee:{}", payee_key)]).expect("payee allowlist entry");
@@ -375,13 +430,19 @@ impl C12 {
                         }
                         last_inv = Some((inv.clone(), a.min(u64::MAX / 4), already_recorded));
                         let node = w.node.clone();
-                        propose_invoice(via, node, inv)
+                        match pw.as_mut() {
+                            Some(pw) => wire_invoice(pw, &inv),
+                            None => propose_invoice(via, node, inv),
+                        }
                     } else {
                         // unique hash per event so that it is a new approval
                         let ph = PaymentHash(Sha256::hash(&[*h, (uniq & 0xff) as u8, (uniq >> 8) as u8, 0x77]).to_byte_array());
                         let node = w.node.clone();
                         last_ks = Some((ph, a, false));
-                        call(move || node.add_keysend(payee, ph, a))
+                        match pw.as_mut() {
+                            Some(pw) => wire_keysend(pw, &payee, &ph, a),
+                            None => call(move || node.add_keysend(payee, ph, a)),
+                        }
                     };
                     let a = if is_inv { a.min(u64::MAX / 4) } else { a };
                     if already_recorded && matches!(res, Out::Ok(true)) {
@@ -475,7 +536,10 @@ impl C12 {
                     t += dt.secs(b, n);
                     w.clock.set(Duration::from_secs(t));
                     let node = w.node.clone();
-                    let res: Out<bool> = propose_invoice(via, node, inv);
+                    let res: Out<bool> = match pw.as_mut() {
+                        Some(pw) => wire_invoice(pw, &inv),
+                        None => propose_invoice(via, node, inv),
+                    };
                     let approved = matches!(res, Out::Ok(true));
                     st.class(format!("retry-invoice:{}:{}", if counted { "of-approved" } else { "of-refused" }, res.tag()));
                     if res.is_panic() {
@@ -505,7 +569,10 @@ impl C12 {
                     t += dt.secs(b, n);
                     w.clock.set(Duration::from_secs(t));
                     let node = w.node.clone();
-                    let res: Out<bool> = call(move || node.add_keysend(payee, ph, a));
+                    let res: Out<bool> = match pw.as_mut() {
+                        Some(pw) => wire_keysend(pw, &payee, &ph, a),
+                        None => call(move || node.add_keysend(payee, ph, a)),
+                    };
                     let approved = matches!(res, Out::Ok(true));
                     st.class(format!("retry-keysend:{}:{}", if counted { "of-approved" } else { "of-refused" }, res.tag()));
                     if res.is_panic() {
@@ -528,6 +595,11 @@ impl C12 {
                             break;
                         }
                     }
+                }
+                NodeEv::RestartNewSpec { .. } if wire => {
+                    // the wire world restarts with the start-up configuration it was built with
+                    st.class("restart-with-new-spec:skipped(wire)");
+                    continue;
                 }
                 NodeEv::RestartNewSpec { hourly: nh, scale } => {
                     let new_limit = match scale { 1 => (limit / 2).max(1000), 2 => limit.saturating_mul(2), _ => limit };
@@ -566,7 +638,16 @@ impl C12 {
                     restarted_since_approval = true;
                 }
                 NodeEv::Restart => {
-                    let r = w.restart();
+                    let r = match pw.as_mut() {
+                        Some(pw) => {
+                            let r = pw.restart();
+                            if r.is_ok() {
+                                w.rebind_proto(pw);
+                            }
+                            r
+                        }
+                        None => w.restart(),
+                    };
                     shape.push((2u8, r.is_ok()));
                     if !r.is_ok() {
                         st.class("node_restart_failed");
@@ -668,8 +749,8 @@ impl Prop for C12 {
         prop_oneof![
             10 => (kind_strat(), limit.clone(), any::<u32>(), proptest::collection::vec((dt_strat(), amt_strat(), persist_strat()), 1..n))
                 .prop_map(|(kind, limit, t0, events)| Case::Unit { kind, limit, t0, events }),
-            1 => (any::<bool>(), 1u32..1000, 1u32..500, proptest::collection::vec(node_ev_strat(), 1..n))
-                .prop_map(|(hourly, limit_sat, fee_limit_sat, events)| Case::Node { hourly, limit_sat, fee_limit_sat, events }),
+            1 => (any::<bool>(), 1u32..1000, 1u32..500, proptest::collection::vec(node_ev_strat(), 1..n), prop::bool::weighted(0.3))
+                .prop_map(|(hourly, limit_sat, fee_limit_sat, events, wire)| Case::Node { hourly, limit_sat, fee_limit_sat, events, wire }),
             1 => (any::<bool>(), limit, proptest::collection::vec((dt_strat(), amt_strat(), any::<bool>(), prop::bool::weighted(0.2)), 1..n))
                 .prop_map(|(hourly, limit, events)| Case::Approver { hourly, limit, events }),
         ]
@@ -678,7 +759,7 @@ impl Prop for C12 {
     fn run(&self, case: &Case, st: &mut CaseStats, ctx: &Ctx) -> Result<(), Violation> {
         match case {
             Case::Unit { kind, limit, t0, events } => self.run_unit(kind, *limit, *t0, events, st, ctx),
-            Case::Node { hourly, limit_sat, fee_limit_sat, events } => self.run_node(*hourly, *limit_sat, *fee_limit_sat, events, st, ctx),
+            Case::Node { hourly, limit_sat, fee_limit_sat, events, wire } => self.run_node(*hourly, *limit_sat, *fee_limit_sat, events, *wire, st, ctx),
             Case::Approver { hourly, limit, events } => self.run_approver(*hourly, *limit, events, st, ctx),
         }
     }
